@@ -161,13 +161,19 @@ def g_scalar(tier, seed):
                         g = z3.And(z3.BoolVal(type(r).__name__ == lc), ob.zabs(_field(r, lc) - _field(a, lc)) <= half)
                     elif lc == 'DMSAngle':
                         zero = z3.And(toz(r.degree) == 0, toz(r.minute) == 0, toz(r.second) == 0)
-                        g = z3.And(z3.BoolVal(type(r).__name__ == lc), z3.Or(z3.BoolVal(r.positive == a.positive), zero), toz(r.degree) == toz(a.degree),
-                                   toz(r.minute) == toz(a.minute), ob.zabs(toz(r.second) - toz(a.second)) <= half)
+                        # the property bounds the change of the angle (half a unit of the rounded place), not the individual fields:
+                        # an implementation that carries 60 seconds into the minutes is as good as one that shows 60
+                        va = toz(a.degree) * 3600 + toz(a.minute) * 60 + toz(a.second)
+                        vr = toz(r.degree) * 3600 + toz(r.minute) * 60 + toz(r.second)
+                        g = z3.And(z3.BoolVal(type(r).__name__ == lc), z3.Or(z3.BoolVal(r.positive == a.positive), zero), toz(r.degree) >= 0,
+                                   toz(r.minute) >= 0, toz(r.second) >= 0, ob.zabs(vr - va) <= half)
                     else:
                         zero = z3.And(toz(r.degree) == 0, toz(r.minute) == 0)
-                        g = z3.And(z3.BoolVal(type(r).__name__ == lc), z3.Or(z3.BoolVal(r.positive == a.positive), zero), toz(r.degree) == toz(a.degree),
-                                   ob.zabs(toz(r.minute) - toz(a.minute)) <= half)
-                    _decide(out, p, 'O1', 'round(%s%s, %d) changes the last field by at most half a unit and keeps sign and class' % (lc, '' if sl else ' negative', n), g,
+                        va = toz(a.degree) * 60 + toz(a.minute)
+                        vr = toz(r.degree) * 60 + toz(r.minute)
+                        g = z3.And(z3.BoolVal(type(r).__name__ == lc), z3.Or(z3.BoolVal(r.positive == a.positive), zero), toz(r.degree) >= 0,
+                                   toz(r.minute) >= 0, ob.zabs(vr - va) <= half)
+                    _decide(out, p, 'O1', 'round(%s%s, %d) changes the angle by at most half a unit of the rounded place and keeps sign and class' % (lc, '' if sl else ' negative', n), g,
                             'O1:%s:round' % lc)
     return out
 
